@@ -94,8 +94,10 @@ def classify(checks, verdict, timed_out, rc, text):
     real = [c for c in failed if c not in unwind]
     covers = [c for c in checks if ".cover." in c["name"]]
     unsat = [c for c in covers if c["status"] != "SATISFIED"]
+    if verdict == "FAILED" and not failed and ("out of memory" in text.lower() or "CBMC failed" in text):
+        return "INCONCLUSIVE", "out of memory / solver error"
     if verdict == "NONE":
-        if "Status: ERROR" in text or "out of memory" in text.lower() or "std::bad_alloc" in text or "Killed" in text:
+        if "Status: ERROR" in text or "out of memory" in text.lower() or "ran out of memory" in text.lower() or "std::bad_alloc" in text or "Killed" in text:
             return "INCONCLUSIVE", "out of memory / solver error"
         return "INCONCLUSIVE", "no verdict (rc=%s)" % rc
     if unwind:
@@ -103,6 +105,8 @@ def classify(checks, verdict, timed_out, rc, text):
     if real:
         return "FAIL", "; ".join(sorted(set(c["desc"] for c in real)))
     if any(c["status"] in ("UNDETERMINED", "ERROR") for c in checks):
+        if "ran out of memory" in text.lower() or "out of memory" in text.lower():
+            return "INCONCLUSIVE", "out of memory (solver)"
         return "INCONCLUSIVE", "undetermined checks"
     if unsat:
         return "INCONCLUSIVE", "vacuity: cover not satisfied: " + "; ".join(c["desc"] for c in unsat)
@@ -130,15 +134,35 @@ def parse_tapes(text):
     return out
 
 
-def kani_cmd(engine, harness, target_dir, playback=False, extra_cbmc=(), only_codegen=False):
+def kani_cmd(engine, harness, target_dir, playback=False, extra_cbmc=(), only_codegen=False, trace=False):
     cwd, eng_args = ENGINES[engine]
     cmd = ["cargo", "kani", "--harness", harness, "--exact", "--target-dir", target_dir] + eng_args + COMMON
     if only_codegen:
         return cmd + ["--only-codegen"], cwd
     if playback:
         cmd += ["-Z", "concrete-playback", "--concrete-playback=print"]
+    if trace:
+        cmd += ["--output-format", "old"]
     cmd += CBMC_ARGS + list(extra_cbmc)
+    if trace:
+        cmd += ["--trace", "--stop-on-fail"]
     return cmd, cwd
+
+
+ANY_RE = re.compile(r"function kani::any_raw_internal::<(\w+)> line \d+ thread \d+\n-+\n\s+goto_symex\$\$return_value\$\$\S*any_raw_internal\S*=\S+ \(([01 ]+)\)")
+
+
+def parse_trace_tape(text):
+    """Raw CBMC trace (--output-format old --trace): the values returned by
+    kani::any_raw_internal, in execution order, as a little-endian byte tape."""
+    tape = bytearray()
+    n = 0
+    for ty, bits in ANY_RE.findall(text):
+        groups = bits.split()
+        val = bytes(int(g, 2) for g in groups)  # most significant byte first
+        tape += val[::-1]
+        n += 1
+    return bytes(tape), n
 
 
 # Per-loop unwinding bounds (CBMC --unwindset), matched by regex on the demangled
@@ -200,17 +224,17 @@ def compute_unwindset(engine, harness, target_dir, rules, timeout, log_path):
     return (",".join(items) if items else None), "%d loops bounded" % len(items)
 
 
-def run_harness(engine, harness, slot, timeout, mem_gb=24, playback=False, extra_cbmc=(), unwindset=()):
+def run_harness(engine, harness, slot, timeout, mem_gb=24, playback=False, extra_cbmc=(), unwindset=(), trace=False):
     os.makedirs(os.path.join(WORK, "logs"), exist_ok=True)
     target_dir = os.path.join(WORK, "kt-%s-%d" % (engine, slot))
-    log_path = os.path.join(WORK, "logs", "%s%s.log" % (harness, ".playback" if playback else ""))
+    log_path = os.path.join(WORK, "logs", "%s%s.log" % (harness, ".playback" if playback else (".trace" if trace else "")))
     t_start = time.time()
     rules = list(DEFAULT_UNWINDSET.get(engine, [])) + list(unwindset)
     uw, uw_note = compute_unwindset(engine, harness, target_dir, rules, 900, log_path)
     extra = list(extra_cbmc)
     if uw:
         extra += ["--unwindset", uw]
-    cmd, cwd = kani_cmd(engine, harness, target_dir, playback, extra)
+    cmd, cwd = kani_cmd(engine, harness, target_dir, playback, extra, trace=trace)
     rc, timed_out, wall = run_proc(cmd, cwd, timeout, mem_gb, log_path)
     wall = time.time() - t_start
     text = open(log_path, errors="replace").read()
@@ -220,4 +244,10 @@ def run_harness(engine, harness, slot, timeout, mem_gb=24, playback=False, extra
            "checks": checks, "stats": stats, "log": log_path, "cmd": " ".join(cmd), "rc": rc, "unwindset_rules": ["%s:%d" % r for r in rules]}
     if playback:
         res["tapes"] = parse_tapes(text)
+    if trace:
+        tape, n = parse_trace_tape(text)
+        m = re.search(r"Violated property:\n\s+file (\S+) function (.*?) line (\d+).*?\n\s+(.*)\n", text)
+        res["trace_tape"] = tape
+        res["trace_values"] = n
+        res["trace_violated"] = (m.group(4).strip() + " @ " + m.group(1) + ":" + m.group(3)) if m else ""
     return res
